@@ -1,0 +1,40 @@
+//go:build verif
+
+// Contracts read by /verif/govc (comment-only; never compiled into the node).
+
+package recent_history
+
+//@ stable maxBlocksHistory
+
+// GP 7.5: beta-dagger is beta with the newest entry's state root replaced by the parent state root (in place:
+// the result aliases the argument), every other entry and every other field untouched.
+//@ func History2HistoryDagger
+//@   props C25
+//@   ensures alias: result == history
+//@   ensures root: len(history) != 0 ==> result[len(history)-1].StateRoot == parentStateRoot
+//@   ensures newest: len(history) != 0 ==> result[len(history)-1].HeaderHash == old(history[len(history)-1].HeaderHash) && result[len(history)-1].BeefyRoot == old(history[len(history)-1].BeefyRoot) && result[len(history)-1].Reported == old(history[len(history)-1].Reported)
+//@   ensures others: forall(i, 0, len(history), i < len(history)-1 ==> history[i] == old(history[i]))
+//@   assigns history[*]
+
+// GP 7.8: append the new item, dropping the oldest entry when the list is full; the result is a fresh list
+//@ func AddItem2BetaHPrime
+//@   props C25
+//@   requires cap: maxBlocksHistory >= 1 && maxBlocksHistory <= 1024 && len(historyDagger) <= maxBlocksHistory
+//@   ensures bound: len(result) <= maxBlocksHistory
+//@   ensures grow: len(historyDagger) < maxBlocksHistory ==> len(result) == len(historyDagger)+1 && forall(i, 0, len(historyDagger), result[i] == historyDagger[i])
+//@   ensures full: len(historyDagger) == maxBlocksHistory ==> len(result) == maxBlocksHistory && forall(i, 0, maxBlocksHistory-1, result[i] == historyDagger[i+1])
+//@   ensures appended: result[len(result)-1] == item
+//@   ensures fresh: fresh(result)
+
+//@ func NewItem
+//@   props C25
+//@   ensures fields: result.HeaderHash == headerHash && result.BeefyRoot == accumulationResultMmr && result.Reported == workReportHash
+//@   ensures zeroroot: forall(b, 0, 32, result.StateRoot[b] == 0)
+
+//@ func CheckDuplicate
+//@   props C25
+//@   ensures found: result == exists(i, 0, len(blocksHistory), blocksHistory[i].HeaderHash == headerhash)
+//@   loop rangeindex#0
+//@     invariant range: rangeindex >= -1 && rangeindex < len(blocksHistory)
+//@     invariant none: forall(i, 0, rangeindex+1, blocksHistory[i].HeaderHash != headerhash)
+//@     invariant frame: frame_only()
